@@ -20,6 +20,15 @@ def run(R):
     enabled = {v: e for v, e in encs.items() if e['feature'] in feats}
     run_parsers(R, tonic, comp, enabled)
     run_plumbing(R, tonic, comp, enabled)
+    if R.tier == 'thorough':
+        for name, cfg, cr in R.matrix():
+            if not name.startswith('m_comp_'):
+                continue
+            R.cur_cfg = name
+            en = {v: e for v, e in encs.items() if e['feature'] in set(cr.features)}
+            run_parsers(R, cr, comp, en, tag='@' + name)
+        R.cur_cfg = 'full'
+        R.selftest()
 
 
 def run_parsers(R, tonic, comp, enabled, tag=''):
